@@ -84,6 +84,11 @@ structure RegD where
   reverse : Bool
   access : Nat
   fields : List FieldD
+  subW : Nat := 0             -- width of one sub-register (0 = plain register)
+  nsubs : Nat := 0            -- number of sub-registers
+  revSubs : Bool := false     -- `reverse_subregs_order`
+  alts : List Nat := []       -- `alt_widths`
+  subKeys : List Nat := []    -- names and uids of the sub-registers (`find_reg(include_group_regs=True)` matches them too)
   deriving Repr, DecidableEq
 
 structure LayoutD where
@@ -104,6 +109,9 @@ def FieldD.ofRaw : List Nat → FieldD
 
 def RegD.ofRaw (x : List Nat × List (List Nat)) : RegD :=
   match x.1 with
+  | init :: name :: uid :: flags :: subW :: nsubs :: rs :: nalts :: more =>
+    { init := init, name := name, uid := uid, reverse := flags % 2 == 1, access := flags / 2, fields := x.2.map FieldD.ofRaw,
+      subW := subW, nsubs := nsubs, revSubs := rs % 2 == 1, alts := more.take nalts, subKeys := more.drop nalts }
   | init :: name :: uid :: flags :: _ =>
     { init := init, name := name, uid := uid, reverse := flags % 2 == 1, access := flags / 2, fields := x.2.map FieldD.ofRaw }
   | _ => { init := 0, name := 0, uid := 0, reverse := false, access := 0, fields := [] }
@@ -281,7 +289,7 @@ def toReg (r : RegL) (rd : RegD) (v : Nat) : Regs.Reg :=
   { width := r.width, value := v, fields := List.zipWith toField r.fields rd.fields }
 
 def toRegMeta (rd : RegD) : Regs.RegMeta :=
-  { alts := [], fields := rd.fields.map (fun fd => { hidden := fd.hidden, names := fd.enums.map (·.2) }) }
+  { alts := rd.alts, fields := rd.fields.map (fun fd => { hidden := fd.hidden, names := fd.enums.map (·.2) }) }
 
 def toMeta (d : LayoutD) : Regs.Meta := d.regs.map toRegMeta
 
@@ -297,6 +305,46 @@ def valuesOf (rf : Regs.RegFile) : Vals := rf.map (·.value)
 def LayoutD.initVals (d : LayoutD) : Vals := d.regs.map (·.init)
 
 def noReversedB (d : LayoutD) : Bool := d.regs.all (fun rd => !rd.reverse)
+
+/-! ### grouped registers (ROTKH, RKTH, CUST_MK_SK, reversed fuse groups): the sub-register structure of the details table
+
+The state of an area stays the list of RAW register values; the C11 register of a group holding the raw value `v` is the fresh
+group after `set_value(v, raw=True)` (sub-register `i` = its slice of `v`). -/
+
+/-- the group as `_load_from_spec` creates it, all sub-registers zero -/
+def groupBase (r : RegL) (rd : RegD) : Regs.Reg :=
+  { width := r.width, reverse := rd.reverse, subW := rd.subW, subs := List.replicate rd.nsubs 0, revSubs := rd.revSubs }
+
+/-- a register of the layout as C11 register: plain, or a group (with byte-reversed view / alternative widths in `toRegMeta`) -/
+def toRegG (r : RegL) (rd : RegD) (v : Nat) : Regs.Reg :=
+  if rd.subW = 0 then toReg r rd v
+  else match (groupBase r rd).set v true with
+    | .ok x => x
+    | .error _ => groupBase r rd
+
+def toFileFromG : List RegL → List RegD → Vals → Regs.RegFile
+  | r :: rs, rd :: rds, v :: vs => toRegG r rd v :: toFileFromG rs rds vs
+  | _, _, _ => []
+
+def toFileG (l : Layout) (d : LayoutD) (vals : Vals) : Regs.RegFile := toFileFromG l.regs d.regs vals
+
+/-- `get_value(raw=True)` of every register -/
+def valuesOfG (rf : Regs.RegFile) : Vals := rf.map (fun r => if r.isGroup then Regs.assemble r else r.value)
+
+/-- the group structure of one register is database-like (C11 `GroupWF` / `AltOK`): a plain register is not reversed and has no
+    alternative widths; a group has no bit-fields of its own, is exactly as wide as its sub-registers, its alternative widths are byte
+    and sub-register multiples not wider than the group, the sub-register order is normal when there are alternative widths, and a
+    FRESH group with alternative widths holds zero (so the sub-registers beyond a short value are zero) -/
+def groupOkB (r : RegL) (rd : RegD) : Bool :=
+  if rd.subW = 0 then !rd.reverse && rd.alts.isEmpty
+  else r.fields.isEmpty && r.width == rd.subW * rd.nsubs &&
+    rd.alts.all (fun a => a % 8 == 0 && decide (8 ≤ a) && decide (a ≤ r.width) && a % rd.subW == 0) &&
+    (!rd.revSubs || rd.alts.isEmpty) && (rd.alts.isEmpty || rd.init == 0)
+
+/-- `find_reg(name, include_group_regs=True)`: registers in order, each followed by its sub-registers; no register NAME is the
+    name or uid of a sub-register, so the search for a register name never ends in a sub-register -/
+def subKeysB (d : LayoutD) : Bool :=
+  (orPow (d.regs.map (·.name)) &&& orPow (d.regs.flatMap (·.subKeys))) == 0
 
 /-- all-or-nothing map -/
 def optAll {α β : Type} (f : α → Option β) : List α → Option (List β)
@@ -348,6 +396,8 @@ def zipAll {α β} (p : α → β → Bool) : List α → List β → Bool
   | _, _ => false
 
 /-- both tables describe the same registers and bit-fields -/
+def groupsB (l : Layout) (d : LayoutD) : Bool := zipAll groupOkB l.regs d.regs && subKeysB d
+
 def alignedB (l : Layout) (d : LayoutD) : Bool :=
   zipAll (fun r rd => r.fields.length == rd.fields.length) l.regs d.regs &&
   l.computed == d.computed.map (fun c => (c.1, c.2.1))
